@@ -113,6 +113,16 @@ def main(tier, seed):
             rec["main_can_terminate"] = pipeline.main_can_terminate(c.prog)
         if rec["after_main_finished"]:
             run.violation("the chip keeps running / produces effects after the top-level code ended", rec)
+    # scripts that end and whose functions all have a single live call (calls from dead code and from
+    # never-called functions do not count): with inlining on, no function body is placed after the main code,
+    # so the chip must produce exactly CPython's effects and then stop
+    import glob
+    import os
+    from .. import pyref
+    ends = [(os.path.basename(f)[:-3], open(f).read()) for f in sorted(glob.glob(str(core.VERIF / "corpus" / "c07" / "ends" / "*.py")))]
+    pyref.stream(run, ends, {k: pipeline.VECTORS[k] for k in ("default", "compact", "tailinline", "pushpopinline")},
+                 name="c07ends", kind="script_end")
+    run.cov["terminating_scripts_against_cpython"] = len(ends)
     for f in run.findings.open_for("C07"):
         if f["id"] not in run.known_hits:
             run.note(f"known finding {f['id']} did not reproduce in this run")
